@@ -41,6 +41,36 @@ class CtorLift(Lift):
         return {"text": text, "line": line, "file": self.src, "raw": raw, "nloops": nloops, "header": header}
 
 
+class IterForList(Rule):
+    """`for (auto it = c.begin(); it != c.end(); ++it) BODY` -> the range-for over c it is (`it->` / `(*it).` become the element):
+    lowered further by RangeForList"""
+
+    def __init__(self, n=None):
+        self.n = n
+
+    def apply(self, text):
+        k = 0
+        rx = re.compile(r"\bfor\s*\(\s*auto\s+(\w+)\s*=\s*(\w+)\.begin\(\)\s*;\s*\1\s*!=\s*\2\.end\(\)\s*;\s*(?:\+\+\s*\1|\1\s*\+\+)\s*\)\s*")
+        while True:
+            m = rx.search(text)
+            if not m:
+                break
+            k += 1
+            it, c = m.group(1), m.group(2)
+            b = m.end()
+            if text[b] == "{":
+                e = match_close(text, b, "{", "}")
+            else:
+                e = _stmt_end(text, b)
+            body = text[b:e + 1]
+            x = "vx_e%d" % k
+            body = re.sub(r"(?<![\w.>])%s->" % re.escape(it), x + ".", body)
+            body = re.sub(r"\(\*%s\)\." % re.escape(it), x + ".", body)
+            text = text[:m.start()] + "for (queue_entry& %s : %s) " % (x, c) + body + text[e + 1:]
+        self.check(k, "IterForList")
+        return text
+
+
 class RangeForList(Rule):
     """`for (T& x : c) BODY`  ->  `for (long vx_itK = slist_begin(&c); vx_itK != slist_end(&c); vx_itK = slist_next(&c, vx_itK))
     { struct T *x = slist_at(&c, vx_itK); BODY' }`  with  x.  ->  x->  inside BODY (BODY = block or single statement)."""
@@ -153,6 +183,7 @@ def blocking(ret):
 
 
 LIST = [
+    IterForList(None),
     RangeForList(None),
     Sub(r"\b(\w+)\.front\(\)\.", r"slist_front(&\1)->", None),
     Sub(r"\b(\w+)\.front\(\)", r"slist_front(&\1)", None),
